@@ -129,8 +129,20 @@ package transport
 //@ requires gRecvFinalized
 //@ func (c *Chunk) nodeRemoved [C15]
 //@ trusted file-system query (directory marked as deleted)
+// From the property: "one InstallSnapshot notification describing it" -- the message handed to raft is
+// built from the FIRST chunk of the stream and names the snapshot that was transferred: sender, target
+// replica and shard, index, term, on-disk index, membership, main file size, witness flag, and the list
+// of external files collected while the stream was received
 //@ func (c *Chunk) toMessage [C15]
-//@ trusted builds the InstallSnapshot message from the first chunk and the file list
+//@ noframe
+//@ nobounds
+//@ ensures chunk.ChunkId == 0
+//@ ensures len(result.Requests) == 1 && result.BinVer == chunk.BinVer && result.DeploymentId == chunk.DeploymentId
+//@ ensures result.Requests[0].Type == pb.InstallSnapshot && result.Requests[0].From == chunk.From && result.Requests[0].To == chunk.ReplicaID && result.Requests[0].ShardID == chunk.ShardID
+//@ ensures result.Requests[0].Snapshot.Index == chunk.Index && result.Requests[0].Snapshot.Term == chunk.Term && result.Requests[0].Snapshot.OnDiskIndex == chunk.OnDiskIndex
+//@ ensures result.Requests[0].Snapshot.FileSize == chunk.FileSize && result.Requests[0].Snapshot.Witness == chunk.Witness && !result.Requests[0].Snapshot.Dummy
+//@ ensures result.Requests[0].Snapshot.Membership.ConfigChangeId == chunk.Membership.ConfigChangeId && result.Requests[0].Snapshot.Membership.Addresses == chunk.Membership.Addresses && result.Requests[0].Snapshot.Membership.NonVotings == chunk.Membership.NonVotings && result.Requests[0].Snapshot.Membership.Witnesses == chunk.Membership.Witnesses && result.Requests[0].Snapshot.Membership.Removed == chunk.Membership.Removed
+//@ ensures ptr(result.Requests[0].Snapshot.Files) == ptr(files) && len(result.Requests[0].Snapshot.Files) == len(files)
 //@ func (c *Chunk) reset [C15]
 //@ requires c.tracked != nil && held(c.mu) == 0
 //@ modifies held(c.mu), entries(c.tracked)
